@@ -5,7 +5,6 @@ use crate::explore::{self, Ev, StepFail};
 use crate::tuiworld::{self, TraceEv, World, WorldCfg, TRACE_EVENTS};
 use serde_json::{json, Value};
 use std::collections::BTreeMap;
-use std::sync::Mutex;
 use std::time::Instant;
 use vcore::mc;
 use vcore::report::{Args, Finding, Report, Tier};
@@ -97,8 +96,39 @@ fn record(findings: &mut Findings, property: &str, cfg: &WorldCfg, h: &[Ev], f: 
     }
 }
 
+pub fn no_check_fn() -> Box<dyn FnMut(&World, &mut Vec<StepFail>)> {
+    Box::new(|_: &World, _: &mut Vec<StepFail>| {})
+}
+
 /// Re-draw a reached state at other terminal sizes.
 pub fn redraw_sizes(cfg: &WorldCfg, hist: &[Ev], sizes: &[(u16, u16)]) -> Vec<((u16, u16), StepFail)> {
+    redraw_many(&[(cfg.clone(), hist.to_vec())], sizes).pop().unwrap_or_default()
+}
+
+fn redraw_job((cfg, hist, sizes): (WorldCfg, Vec<Ev>, Vec<(u16, u16)>)) -> Vec<((u16, u16), StepFail)> {
+    redraw_sizes_here(&cfg, &hist, &sizes)
+}
+
+/// Re-draw many reached states at the given sizes on the job pool (a draw that never returns
+/// costs one abandoned thread and is reported as a "hang" failure of that state).
+pub fn redraw_many(states: &[(WorldCfg, Vec<Ev>)], sizes: &[(u16, u16)]) -> Vec<Vec<((u16, u16), StepFail)>> {
+    let jobs: Vec<(WorldCfg, Vec<Ev>, Vec<(u16, u16)>)> = states.iter().map(|(c, h)| (c.clone(), h.clone(), sizes.to_vec())).collect();
+    explore::run_jobs(jobs.clone(), redraw_job)
+        .into_iter()
+        .zip(jobs)
+        .map(|(d, job)| match d {
+            explore::Done::Ok(v) => v,
+            explore::Done::Hung { stage } => {
+                let again = matches!(explore::run_jobs(vec![job], redraw_job).pop(), Some(explore::Done::Hung { .. }));
+                let key = if again { "never-returns:draw-resized" } else { "never-returns:draw:not-reproducible" };
+                vec![((0, 0), StepFail { phase: "hang".into(), key: key.into(), detail: format!("no return within {} s while {stage}{}", explore::JOB_TIMEOUT_S, if again { "" } else { "; the same state drew normally when replayed again" }) })]
+            }
+            explore::Done::Crashed(m) => panic!("MACHINERY: a redraw job crashed: {m}"),
+        })
+        .collect()
+}
+
+fn redraw_sizes_here(cfg: &WorldCfg, hist: &[Ev], sizes: &[(u16, u16)]) -> Vec<((u16, u16), StepFail)> {
     let mut out = vec![];
     let mut none = |_: &World, _: &mut Vec<StepFail>| {};
     let (w, f) = explore::replay(cfg, hist, &mut none);
@@ -108,6 +138,7 @@ pub fn redraw_sizes(cfg: &WorldCfg, hist: &[Ev], sizes: &[(u16, u16)]) -> Vec<((
     let Some(mut w) = w else { return out };
     for &(cw, ch) in sizes {
         w.resize(cw, ch);
+        explore::set_stage(&format!("drawing the frame at {cw}x{ch}"));
         match mc::catch(|| w.draw()) {
             Ok(()) => {}
             Err(p) => {
@@ -135,7 +166,7 @@ pub fn run(args: &Args) -> i32 {
     let mut findings = Findings::new();
     let (mut states, mut transitions, mut max_depth) = (0u64, 0u64, 0usize);
     let mut phases: Vec<Value> = vec![];
-    let no_check = || -> Box<dyn FnMut(&World, &mut Vec<StepFail>)> { Box::new(|_: &World, _: &mut Vec<StepFail>| {}) };
+    let no_check: explore::MakeCheck = no_check_fn;
     let base = WorldCfg::default();
     let configs: Vec<(&str, WorldCfg)> = vec![
         ("single-target", base.clone()),
@@ -151,7 +182,7 @@ pub fn run(args: &Args) -> i32 {
     for (name, cfg) in &configs {
         let d = if *name == "single-target" { full_depth } else if *name == "two-targets" { full_depth - 1 } else { full_depth - 1 - usize::from(tier == Tier::Quick) };
         let al = full_alphabet(cfg.targets);
-        let r = explore::bfs(cfg, &al, &[], d, usize::MAX, &no_check);
+        let r = explore::bfs(cfg, &al, &[], d, usize::MAX, no_check);
         states += r.states;
         transitions += r.transitions;
         max_depth = max_depth.max(r.max_depth);
@@ -178,7 +209,7 @@ pub fn run(args: &Args) -> i32 {
             let al = projected(proj, cfg.targets);
             let depth = if tier == Tier::Thorough { 9 } else if proj == "modes" { 4 } else if proj == "navigation" { 5 } else { 6 };
             let cap = if tier == Tier::Thorough { 60_000 } else { 2_500 };
-            let r = explore::bfs(cfg, &al, &[], depth, cap, &no_check);
+            let r = explore::bfs(cfg, &al, &[], depth, cap, no_check);
             states += r.states;
             transitions += r.transitions;
             max_depth = max_depth.max(r.max_depth);
@@ -196,7 +227,7 @@ pub fn run(args: &Args) -> i32 {
     for (name, cfg) in [("flow-cap-3", base.clone()), ("flow-cap-2", WorldCfg { max_flows: 2, ..base.clone() }), ("flow-cap-1", WorldCfg { max_flows: 1, ..base.clone() })] {
         let al = projected("flows", cfg.targets);
         let depth = if tier == Tier::Thorough { 10 } else { 8 };
-        let r = explore::bfs(&cfg, &al, &[], depth, if tier == Tier::Thorough { 100_000 } else { 6_000 }, &no_check);
+        let r = explore::bfs(&cfg, &al, &[], depth, if tier == Tier::Thorough { 100_000 } else { 6_000 }, no_check);
         states += r.states;
         transitions += r.transitions;
         max_depth = max_depth.max(r.max_depth);
@@ -211,7 +242,7 @@ pub fn run(args: &Args) -> i32 {
     {
         let al = projected("details", base.targets);
         let depth = if tier == Tier::Thorough { 16 } else { 12 };
-        let r = explore::bfs(&base, &al, &[], depth, if tier == Tier::Thorough { 200_000 } else { 20_000 }, &no_check);
+        let r = explore::bfs(&base, &al, &[], depth, if tier == Tier::Thorough { 200_000 } else { 20_000 }, no_check);
         states += r.states;
         transitions += r.transitions;
         max_depth = max_depth.max(r.max_depth);
@@ -240,7 +271,7 @@ pub fn run(args: &Args) -> i32 {
             let mut al: Vec<Ev> = keys.into_iter().map(Ev::Key).collect();
             al.extend(traces.into_iter().map(|(t, i)| Ev::Trace(t, i)));
             let depth = if tier == Tier::Thorough { 16 } else { 10 };
-            let r = explore::bfs(cfg, &al, &[], depth, if tier == Tier::Thorough { 150_000 } else { 2_500 }, &no_check);
+            let r = explore::bfs(cfg, &al, &[], depth, if tier == Tier::Thorough { 150_000 } else { 1_200 }, no_check);
             states += r.states;
             transitions += r.transitions;
             max_depth = max_depth.max(r.max_depth);
@@ -266,8 +297,8 @@ pub fn run(args: &Args) -> i32 {
                 (Tier::Quick, _) => 1,
             };
             let root = vec![Ev::Trace(TraceEv::Path3, 0), Ev::Key("toggle_settings")];
-            let fix = explore::bfs(cfg, &nav, &root, 120, usize::MAX, &no_check);
-            let r = explore::bfs_roots(cfg, &al, &fix.reached, k, usize::MAX, &|_| 0, usize::MAX, &no_check);
+            let fix = explore::bfs(cfg, &nav, &root, 120, usize::MAX, no_check);
+            let r = explore::bfs_roots(cfg, &al, &fix.reached, k, usize::MAX, &|_| 0, usize::MAX, no_check);
             states += r.states;
             transitions += fix.transitions + r.transitions;
             max_depth = max_depth.max(fix.max_depth + r.max_depth);
@@ -298,29 +329,17 @@ pub fn run(args: &Args) -> i32 {
             sizes.push((1, h));
         }
     }
-    let size_fails: Mutex<Vec<(usize, (u16, u16), StepFail)>> = Mutex::new(vec![]);
-    let redraws = Mutex::new(0u64);
     let n_states = reached_for_sizes.len();
-    let stride = if tier == Tier::Quick { (n_states / 36).max(1) } else { 1 };
+    let stride = if tier == Tier::Quick { (n_states / 24).max(1) } else { 1 };
     let picked: Vec<usize> = (0..n_states).step_by(stride).collect();
-    mc::par_for(picked.len(), mc::workers(), |k| {
-        if start.elapsed().as_secs_f64() > budget_s * 1.5 {
-            return;
+    let picked_states: Vec<(WorldCfg, Vec<Ev>)> = if start.elapsed().as_secs_f64() > budget_s * 1.5 { vec![] } else { picked.iter().map(|i| reached_for_sizes[*i].clone()).collect() };
+    let redraws = (picked_states.len() * sizes.len()) as u64;
+    for (k, fails) in redraw_many(&picked_states, &sizes).into_iter().enumerate() {
+        let (cfg, h) = &picked_states[k];
+        for (s, f) in fails {
+            record(&mut findings, "C17", cfg, h, &f, Some(s));
         }
-        let i = picked[k];
-        let (cfg, h) = &reached_for_sizes[i];
-        let f = redraw_sizes(cfg, h, &sizes);
-        *redraws.lock().unwrap() += sizes.len() as u64;
-        let mut g = size_fails.lock().unwrap();
-        for (s, x) in f {
-            g.push((i, s, x));
-        }
-    });
-    for (i, s, f) in size_fails.into_inner().unwrap() {
-        let (cfg, h) = &reached_for_sizes[i];
-        record(&mut findings, "C17", cfg, h, &f, Some(s));
     }
-    let redraws = *redraws.lock().unwrap();
     tuiworld::remove_fixture();
     rep.merge_findings(findings);
     rep.set("states", json!(states));
